@@ -19,6 +19,9 @@ analysis (RQA) and recurrence network analysis.
 """
 
 # array object and fast numerics
+from typing import Tuple
+from collections.abc import Hashable
+
 import numpy as np
 
 from ..core import Network
@@ -150,6 +153,13 @@ class JointRecurrenceNetwork(JointRecurrencePlot, Network):
         else:
             raise ValueError("Delay value (lag) must not exceed length of \
                              time series!")
+
+    def __cache_state__(self) -> Tuple[Hashable, ...]:
+        # NOTE: combine the states of *both* base classes; the MRO alone
+        # would select the first base's state only. The `Network` part does
+        # not exist yet while `JointRecurrencePlot.__init__()` runs.
+        return JointRecurrencePlot.__cache_state__(self) + (
+            Network.__cache_state__(self) if hasattr(self, "_mut_A") else ())
 
     def __str__(self):
         """
